@@ -169,6 +169,7 @@ J Op::to_json() const {
         if (have_schedule) { J s = J::arr(); for (int c : schedule) s.push(J(c)); j.set("schedule", s); }
     } else if (op == "ForkExec") {
         j.set("call", ex.to_json()); j.set("fork_point", fork_point); j.set("child", child_ex.to_json()); j.set("grandchild", grandchild);
+        if (!extra_calls.empty()) { J xs = J::arr(); for (size_t i = 0; i < extra_calls.size(); i++) { J x = J::obj(); x.set("call", extra_calls[i].to_json()); x.set("point", extra_points[i]); xs.push(x); } j.set("others", xs); }
     } else if (op == "Mutate") { j.set("patch", patch); }
     return j;
 }
@@ -182,6 +183,7 @@ Op Op::from_json(const J &j) {
         if (j.has("schedule")) { o.have_schedule = true; for (auto &c : j.at("schedule").a) o.schedule.push_back((int)c.i); }
     } else if (o.op == "ForkExec") {
         o.ex = ExecOp::from_json(j.at("call")); o.fork_point = (int)j.geti("fork_point"); o.child_ex = ExecOp::from_json(j.at("child")); o.grandchild = j.getb("grandchild");
+        if (j.has("others")) for (auto &x : j.at("others").a) { o.extra_calls.push_back(ExecOp::from_json(x.at("call"))); o.extra_points.push_back((int)x.geti("point")); }
     } else if (o.op == "Mutate") { o.patch = j.at("patch"); }
     return o;
 }
